@@ -68,11 +68,11 @@ Proof.
   - apply Z.leb_gt in E. ok_inv H. split; [lia | auto].
 Qed.
 (* ~A ~S *)
-Theorem aesthetic_consumes_one : forall b esc colon at_ ps c c' a, (0 <= c_apos c)%Z ->
-  dir_as b esc colon at_ ps c = Ok (c', a) ->
+Theorem aesthetic_consumes_one : forall esc colon at_ ps c c' a, (0 <= c_apos c)%Z ->
+  dir_as esc colon at_ ps c = Ok (c', a) ->
   a = false /\ c_apos c' = (c_apos c + 1)%Z /\ arg_at c <> None /\ extends c c'.
 Proof.
-  intros b esc colon at_ ps c c' a Hpos H. unfold dir_as in H.
+  intros esc colon at_ ps c c' a Hpos H. unfold dir_as in H.
   destruct (take_arg c) as [[v c1]| | |] eqn:Et; try discriminate.
   destruct (proj1 (take_arg_spec _ _ _ Et) Hpos) as [Ha ->].
   break_in H; ok_inv H.
@@ -290,11 +290,7 @@ Definition deviation_witnesses : list (string * list value) := [
   ("~{~2{~A~}|~}", [VList [ints [1; 2; 3]; ints [4; 5; 6]]]);         (* nested block with a parameter *)
   ("~{~{~A~:}|~}", [VList [ints [1]; ints [2]]]);                     (* nested ~:} *)
   ("~:(~A~)", [VStr (tx "2nd")]);                                     (* words that start with a digit *)
-  ("~@(~A~)", [VStr (tx " hello world")]);
-  ("~:[f~;t~]", [VList []]);                                          (* the empty list object is not nil *)
-  ("~:A", [VList []]);
-  ("~@[x~A~]y", [VList []]);
-  ("~?", [VStr (tx "x"); VNil])
+  ("~@(~A~)", [VStr (tx " hello world")])
 ]%Z.
 Lemma deviations_hold : forallb deviates deviation_witnesses = true.
 Proof. vm_compute. reflexivity. Qed.
@@ -304,8 +300,7 @@ Definition deviation_table : list ((string * list value) * (outcome * outcome)) 
   (("~D", [VStr (tx "abc")]), (OText (tx """abc"""), OText (tx "abc")));
   (("abc~2,4T|", []), (OText (tx "abc     |"), OText (tx "abc   |")));
   (("~:*~A", [VInt 1]), (OText (tx "nil"), OError));
-  (("~{~A~}}", [ints [1]]), (OText (tx "1"), OText (tx "1}")));
-  (("~:[f~;t~]", [VList []]), (OText (tx "t"), OText (tx "f")))
+  (("~{~A~}}", [ints [1]]), (OText (tx "1"), OText (tx "1}")))
 ]%Z.
 Lemma deviation_values : map (fun e => both (fst e)) deviation_table = map snd deviation_table.
 Proof. vm_compute. reflexivity. Qed.
